@@ -276,6 +276,18 @@ def path_conds(ctx: Ctx, f: Func, node: ast.AST) -> List[Tuple[ast.AST, bool]]:
                 for g in cur.generators:
                     for t in g.ifs:
                         out.extend(split_cond(t, True))
+            else:
+                # a later `for` clause (or its filters) runs only for items that passed the earlier filters
+                for k, g in enumerate(cur.generators):
+                    if child is g:
+                        for g0 in cur.generators[:k]:
+                            for t in g0.ifs:
+                                out.extend(split_cond(t, True))
+        elif isinstance(cur, ast.comprehension):
+            idx = next((i for i, t in enumerate(cur.ifs) if t is child), None)
+            if idx:
+                for t in cur.ifs[:idx]:
+                    out.extend(split_cond(t, True))
         # preceding terminating guards in the block that holds `child`
         for fld in ("body", "orelse", "finalbody"):
             blk = getattr(cur, fld, None)
